@@ -1,10 +1,104 @@
-(* C24 — property theorems only. *)
+(* C24 — property theorems only.
+
+   Reading guide.  `run maxb pushes` is the snapshot cache after its main loop has processed the given input (each
+   push = objects queued on the input channel, then fillBatchFromInputQueue/publishBreadcrumbs until the queue is
+   empty); `chain` lists its crumbs oldest first (index = SequenceNumber).  `client_run maxm ch i gs` is the callback
+   stream of a client whose snapshot was taken at crumb i (sent in messages of at most maxm entries) and whose delta
+   loop followed gs = [g1; g2; ...] crumbs per round - EVERY batching is some gs.  `concat pushes` is the datastore's
+   event stream.  The c24_any_* theorems say the same for an arbitrary interleaving of "absorb one input event" and
+   "publish one crumb", of which the real loop is one instance (so they do not depend on how the queue is batched). *)
 From Coq Require Import List NArith Arith Bool.
-From Verif.C24 Require Import Model Spec Proofs.
+From Verif.C24 Require Import Model Spec Proofs ProofsSorted ProofsInv ProofsRun ProofsClient ProofsMain ProofsTop.
 Import ListNotations.
 
-(* The streamed (or pre-built) snapshot carries exactly the entries of the crumb's tree, in key order, for every
-   message size. *)
+(* The snapshot messages carry exactly the entries of the crumb's tree, in key order, for every message size. *)
 Theorem c24_snapshot_complete : forall maxm kvs, flat_msgs (snap_msgs maxm [] kvs) = kvs.
 Proof. intros; exact (snap_msgs_flat maxm kvs []). Qed.
 Print Assumptions c24_snapshot_complete.
+
+(* The fuel of the model's publish loop never runs out: after the loop nothing is left pending, for every
+   MaxBatchSize (0 means the default, as in Config.ApplyDefaults). *)
+Theorem c24_publish_drains : forall maxb pushes, pend (run maxb pushes) = [].
+Proof. exact run_drains. Qed.
+Print Assumptions c24_publish_drains.
+
+(* For all i <= j: applying the deltas of crumbs (i, j] to the snapshot of crumb i gives the snapshot of crumb j. *)
+Theorem c24_snapshot_plus_deltas : forall maxb pushes i ci g,
+  let ch := chain (run maxb pushes) in
+  nth_error ch i = Some ci ->
+  let later := firstn g (skipn (S i) ch) in
+  c_kvs (last later ci) = fold_left cl_apply (concat (map c_deltas later)) (c_kvs ci).
+Proof. intros maxb pushes i ci g ch H. exact (top_snapshot_plus_deltas maxb pushes i ci H g). Qed.
+Print Assumptions c24_snapshot_plus_deltas.
+
+(* After consuming through crumb j the client's view is the server's view at j: every join point, every message
+   size, every batching. *)
+Theorem c24_client_view : forall maxb pushes maxm i gs ci,
+  let ch := chain (run maxb pushes) in
+  nth_error ch i = Some ci ->
+  let cj := last (firstn (list_sum gs) (skipn (S i) ch)) ci in
+  forall k, view_of (flat_cbs (client_run maxm ch i gs)) k = vview (c_kvs cj) k.
+Proof. intros maxb pushes maxm i gs ci ch H. exact (top_client_view maxb pushes maxm i gs ci H). Qed.
+Print Assumptions c24_client_view.
+
+(* A client that keeps reading until it has followed every crumb holds exactly the datastore's current view. *)
+Theorem c24_converges : forall maxb pushes maxm i gs ci,
+  let ch := chain (run maxb pushes) in
+  nth_error ch i = Some ci ->
+  length (skipn (S i) ch) <= list_sum gs ->
+  converged (concat pushes) (client_run maxm ch i gs).
+Proof. intros maxb pushes maxm i gs ci ch H. exact (top_converges maxb pushes maxm i gs ci H). Qed.
+Print Assumptions c24_converges.
+
+(* Within a connection the (value, revision) pairs seen for a key are a subsequence of what the datastore sent for
+   that key: never an older value after a newer one. *)
+Theorem c24_no_regress : forall maxb pushes maxm i gs ci,
+  let ch := chain (run maxb pushes) in
+  nth_error ch i = Some ci ->
+  in_order (concat pushes) (client_run maxm ch i gs).
+Proof. intros maxb pushes maxm i gs ci ch H. exact (top_no_regress maxb pushes maxm i gs ci H). Qed.
+Print Assumptions c24_no_regress.
+
+(* Whenever the client is told InSync it holds the datastore view after n updates, where the datastore had declared
+   InSync after at most n updates. *)
+Theorem c24_insync_not_early : forall maxb pushes maxm i gs ci,
+  let ch := chain (run maxb pushes) in
+  nth_error ch i = Some ci ->
+  insync_not_early (concat pushes) (client_run maxm ch i gs).
+Proof. intros maxb pushes maxm i gs ci ch H. exact (top_insync maxb pushes maxm i gs ci H). Qed.
+Print Assumptions c24_insync_not_early.
+
+(* The same for ANY interleaving of absorbing input events and publishing crumbs (any batching of the input queue,
+   any MaxBatchSize including ones the defaults exclude). *)
+Theorem c24_any_interleaving : forall maxb os maxm i gs ci,
+  let c := exec maxb os in
+  nth_error (chain c) i = Some ci ->
+  let cbs := client_run maxm (chain c) i gs in
+  in_order (ops_events os) cbs /\ insync_not_early (ops_events os) cbs
+  /\ (pend c = [] -> length (skipn (S i) (chain c)) <= list_sum gs -> converged (ops_events os) cbs).
+Proof.
+  intros maxb os maxm i gs ci c H cbs. split; [|split].
+  - exact (main_order maxb os maxm i gs ci H).
+  - exact (main_insync maxb os maxm i gs ci H).
+  - exact (main_converged maxb os maxm i gs ci H).
+Qed.
+Print Assumptions c24_any_interleaving.
+
+(* Non-vacuity: a run with a no-op update, a delete, a split batch (MaxBatchSize 2), InSync declared before the last
+   updates; a client joining at crumb 2 whose delta loop coalesces two crumbs. *)
+Definition ex_pushes : list (list event) :=
+  [ [EU [U 1 (Some 1) 1 0 TNew; U 2 (Some 2) 2 0 TNew]];
+    [EU [U 1 (Some 1) 3 0 TUpdated; U 3 (Some 3) 4 0 TNew; U 2 None 5 0 TDeleted]; ES SInSync];
+    [EU [U 3 (Some 4) 6 0 TUpdated]] ]%N.
+Example c24_example_chain :
+  map (fun c => (length (c_kvs c), length (c_deltas c), c_status c)) (chain (run 2 ex_pushes))
+  = [(0, 0, SWait); (2, 2, SWait); (3, 1, SWait); (2, 1, SWait); (2, 0, SInSync); (2, 1, SInSync)].
+Proof. vm_compute. reflexivity. Qed.
+Example c24_example_client :
+  client_run 1 (chain (run 2 ex_pushes)) 2 [2; 1]
+  = [CS SResync; CU [U 1 (Some 1) 1 0 TNew]; CU [U 2 (Some 2) 2 0 TNew]; CU [U 3 (Some 3) 4 0 TNew];
+     CU [U 2 None 5 0 TDeleted]; CS SInSync; CU [U 3 (Some 4) 6 0 TUpdated]]%N.
+Proof. vm_compute. reflexivity. Qed.
+Example c24_example_oracle :
+  ok_client (concat ex_pushes) (client_run 1 (chain (run 2 ex_pushes)) 2 [2; 1]) = true.
+Proof. vm_compute. reflexivity. Qed.
